@@ -13,6 +13,7 @@
  *   O:<style>:<r>,<r>..                     offset vector: c create_offset_vector, 2 the same twice from ONE reference array (two results), d _direct, p push, a append, t append+truncate
  *   U:<style>:<code>/<r|->,..               union vector: c create_union_vector, d _direct, p push, a append, t append+truncate (two results: values, types)
  *   Ts:<count>  Ti:<style>:<id>:<size>:<align>:<hex>  To:<id>:<r>  Tu:<id>:<code>:<r|->  Tv:<id>:<rtypes>:<rvalues>  Te
+ *   Tr:<count>                               reserve_table(count) inside an open table frame (no effect on the layout; needed before an id >= the start count)
  *                                            table frame: start_table, table_add (a) / table_add_copy (c), table_add_offset,
  *                                            table_add_union, table_add_union_vector, end_table
  *   B:<id hex|->:<block_align>:<flags>  E:<r>   start_buffer / end_buffer
@@ -225,6 +226,7 @@ static int run_op(flatcc_builder_t *B, char *op)
         FAILIF(flatcc_builder_table_add_union(B, atoi(f[1]), u)); return 0; }
     if (!strcmp(f[0], "Tv")) { flatcc_builder_union_vec_ref_t u; u.type = regs[atoi(f[2])]; u.value = regs[atoi(f[3])];
         FAILIF(flatcc_builder_table_add_union_vector(B, atoi(f[1]), u)); return 0; }
+    if (!strcmp(f[0], "Tr")) { FAILIF(flatcc_builder_reserve_table(B, atoi(f[1]))); return 0; }
     if (!strcmp(f[0], "P")) { if (npushed < 64) pushed[npushed++] = flatcc_builder_push_buffer_alignment(B); return 0; }
     if (!strcmp(f[0], "Q")) { FAILIF(npushed == 0); flatcc_builder_pop_buffer_alignment(B, pushed[--npushed]); return 0; }
     if (!strcmp(f[0], "K")) { FAILIF(!flatcc_builder_check_required_field(B, (flatbuffers_voffset_t)atoi(f[1]))); return 0; }
